@@ -16,6 +16,9 @@ for name, mi in sorted(repo.modules.items()):
         body = [s_ for s_ in f.node.body if not (isinstance(s_, ast.Expr) and isinstance(s_.value, ast.Constant) and isinstance(s_.value.value, str))]
         return hashlib.sha256("\n".join(ast.dump(s_) for s_ in body).encode()).hexdigest()[:16]
     allf = list(mi.functions.values()) + [m for c in mi.classes.values() for m in c.methods.values()]
-    out["modules"][name] = {"functions": fns, "globals": consts, "classes": sorted(mi.classes), "body_sha": {f.qualname: sig(f) for f in allf}}
+    out["modules"][name] = {"functions": fns, "globals": consts, "classes": sorted(mi.classes), "body_sha": {f.qualname: sig(f) for f in allf},
+                            # the confirmed spelling of every function: the normaliser hands it to the rules when the working tree's function has the same
+                            # canonical form (a816lint/canonical.py), i.e. is the same function written differently
+                            "source": {f.qualname: ast.unparse(f.node) for f in allf}}
 json.dump(out, open(os.path.join(os.path.dirname(os.path.dirname(os.path.abspath(__file__))), "refdata", "census.json"), "w"), indent=0)
 print("census written", sum(len(m["functions"]) for m in out["modules"].values()), "functions")
